@@ -227,6 +227,9 @@ impl Runner {
                 match cl.read(8000) {
                     Rd::Val(v) => {
                         if RANDOM_CMDS.contains(&&nm[..]) || nm == b"ZSCAN" { v.enc(&mut newop); }
+                        // EVAL adds its script to the cache: the digest of the source is the model's oracle
+                        // (computed by the harness's own SHA-1, checked by the model for consistency)
+                        if nm == b"EVAL" { if let V::Array(l) = &req { if let Some(V::Bulk(src)) = l.get(1) { V::Bulk(crate::c12::sha1_hex(src)).enc(&mut newop); } } }
                         // replies inside an EXEC array are canonicalised by the queued command's name
                         let v = if nm == b"EXEC" {
                             let q = self.queues.remove(&c).unwrap_or_default();
@@ -401,6 +404,7 @@ impl Runner {
                 self.sync_clock();
                 let mut newop = op[..pos].to_vec(); newop[2] = Tok::I(self.logical);
                 let has_finite = oracles.iter().any(|o| *o > 0);
+                let oracle_list = oracles.clone();
                 for o in oracles { newop.push(Tok::I(o)); }
                 if !self.settle() { return (newop, vec![b("CLOSED")]); }
                 self.drain_all();
@@ -409,7 +413,10 @@ impl Runner {
                 // waiting too the server reads the two in HashMap order - such a write is skipped
                 let owed_c = *self.blk.owed.get(&c).unwrap_or(&0);
                 if owed_c == 0 { self.blk.finite.insert(c, false); }
-                let skip = owed_c > 0 && (*self.blk.finite.get(&c).unwrap_or(&false) || self.blk.owed.iter().any(|(k, v)| *k != c && *v > 1));
+                // a write that may leave requests waiting: to a blocked connection, or with requests behind a blocking pop
+                let may_wait = owed_c > 0 || oracle_list.iter().take(n.saturating_sub(1)).any(|o| *o >= 0);
+                let skip = (owed_c > 0 && *self.blk.finite.get(&c).unwrap_or(&false))
+                    || (may_wait && self.blk.owed.iter().any(|(k, v)| *k != c && *v > 1));
                 if !skip {
                     if has_finite { self.blk.finite.insert(c, true); }
                     let cl = match self.conns.get_mut(&c) { Some(x) => x, None => return (newop, vec![b("CLOSED")]) };
